@@ -730,7 +730,42 @@ pub fn c07(rec: &mut Rec, rng: &mut Rng, thorough: bool) {
     }
 }
 
+/// two servers one after the other on this thread: the first is dropped right after respond + flush (its connection is
+/// still registered for OUT), the second accepts a client on the same descriptor number — which must be served like
+/// any other (nothing about a descriptor number may be remembered outside the server that owned it)
+pub fn c08_server_dropped_after_flush(rec: &mut Rec, rng: &mut Rng) {
+    for round in 0..2 {
+        rec.case("server-after-server");
+        rec.nontrivial();
+        let mut sim = Sim::new(rec, Cfg::base("C08"));
+        let a = sim.connect(rec);
+        sim.poll(rec);
+        sim.send_next(rec, rng, a);
+        while !sim.plans[a].outq.is_empty() {
+            sim.send_next(rec, rng, a);
+        }
+        for _ in 0..3 {
+            sim.poll(rec);
+        }
+        while !sim.w.held.is_empty() {
+            sim.respond(rec, rng, 0);
+        }
+        if round == 0 {
+            // dropped with the answer flushed but no poll since: the registration still says OUT
+            sim.w.flush(rec);
+            sim.w.client_read(rec, a);
+        } else {
+            drain_and_check_supplied(rec, &mut sim, "C08");
+            sim.settle(rec, rng);
+            common_checks(rec, &mut sim, "C08");
+            check_yield_once(rec, &sim);
+        }
+        sim.w.teardown();
+    }
+}
+
 pub fn c08(rec: &mut Rec, rng: &mut Rng, thorough: bool) {
+    c08_server_dropped_after_flush(rec, rng);
     let n = if thorough { 3000 } else { 140 };
     for k in 0..n {
         let mut cfg = Cfg::base("C08");
@@ -1845,6 +1880,40 @@ pub fn srv_conn(rec: &mut Rec, rng: &mut Rng, thorough: bool) {
         let mine: Vec<String> = sim.w.yielded.iter().filter(|(_, t)| t.starts_with(&format!("/c{}/", f))).map(|(_, t)| t.clone()).collect();
         if mine != vec![format!("/c{}/later", f)] {
             rec.oracle_fail("C11", &format!("after a 400 that covered a valid and a malformed request, a later request was sent: yielded {:?}", mine), &sim.w.log);
+        }
+        // C13 after descriptor reuse: a client gets an answer queued (the server now waits to WRITE to it) and goes
+        // away before the poll; the next client inherits its descriptor number, asks with Expect and withholds the body
+        {
+            let x = sim.connect(rec);
+            sim.poll(rec);
+            sim.w.send(rec, x, format!("GET /c{}/r0 HTTP/1.1\r\n\r\n", x).as_bytes());
+            sim.plans[x].sent = vec![tag(x, 0)];
+            for _ in 0..2 {
+                sim.poll(rec);
+            }
+            if let Some(k) = sim.w.held.iter().position(|h| h.client == Some(x)) {
+                sim.respond(rec, rng, k);
+            }
+            sim.w.close(rec, x);
+            for _ in 0..3 {
+                sim.poll(rec);
+            }
+            let y = sim.connect(rec);
+            sim.poll(rec);
+            let head = format!("PUT /c{}/r0 HTTP/1.1\r\nExpect: 100-continue\r\nContent-Length: 3\r\n\r\n", y);
+            sim.w.send(rec, y, head.as_bytes());
+            for _ in 0..3 {
+                sim.poll(rec);
+            }
+            sim.w.client_read(rec, y);
+            if sim.w.clients[y].received != crate::suites::connsuites::CONT11 {
+                rec.oracle_fail("C13", &format!("on a descriptor number inherited from a connection that died with output queued: client received {} before sending the body", hx(&sim.w.clients[y].received)), &sim.w.log);
+            }
+            sim.w.send(rec, y, b"abc");
+            for _ in 0..3 {
+                sim.poll(rec);
+            }
+            sim.plans[y].sent = vec![tag(y, 0)];
         }
         sim.settle(rec, rng);
         sim.w.teardown();
